@@ -214,13 +214,14 @@ Print Assumptions C01_best_of_max.
 Theorem C01_lookup_answer :
   forall (T : Type) (OP : ops T) (lon lat : T) (r id : Z),
   2 <= r <= 29 -> lonlat_to_cell OP lon lat r = Some (Ok id) ->
-  exists samples c, sample_points OP lon lat r = Some samples /\ serialize c = Ok id /\
+  exists lon', frem OP lon (o_ofZ OP 360) = Some lon' /\   (* the longitude reduced modulo 360 *)
+  exists samples c, sample_points OP lon' lat r = Some samples /\ serialize c = Ok id /\
     ((exists slon slat d, In (slon, slat) samples /\ lonlat_to_estimate OP slon slat r = Some c /\
-        cell_contains_point OP c lon lat = Some d /\ o_ltb OP (o_ofZ OP 0) d = Some true)
+        cell_contains_point OP c lon' lat = Some d /\ o_ltb OP (o_ofZ OP 0) d = Some true)
      \/
-     (exists x l, probe OP samples lon lat r [] [] = Some (inr (x :: l)) /\
+     (exists x l, probe OP samples lon' lat r [] [] = Some (inr (x :: l)) /\
         best_of OP l x = Some c /\
-        Forall (failed_entry OP samples lon lat r) (x :: l))).
+        Forall (failed_entry OP samples lon' lat r) (x :: l))).
 Proof. exact (@lookup_answer). Qed.
 Print Assumptions C01_lookup_answer.
 
